@@ -1,13 +1,13 @@
 # C01 - App data flows only after an authenticated, completed handshake
 HARNESSES = [
     COMMON["enc_gate"](12), COMMON["enc_gate"](13),
-    COMMON["dec12"]("dec12_gate", ["C01"], COMMON["dec12_cases"](64, 40, dtls_only=("dtls10", "dtls12n")) + COMMON["dec12_cases"](96, 56, tier="thorough")),
+    COMMON["dec12"]("dec12_gate", ["C01"], COMMON["dec12_cases"](64, 40, dtls_only=("dtls10", "dtls12n")) + COMMON["dec12_cases"](96, 40, tier="thorough", dtls_only=("dtls10n", "dtls12"))),
     COMMON["dec13"]("dec13_gate", ["C01"], ns=((48, "quick"), (96, "thorough"))),
     COMMON["api_recv"](only=("recv_tls12", "recv_tls13")),
 ]
 PROPERTY = dict(level='model_checking',
     claim='For every RI-state of a session and every input buffer within the bounds, the real record decoders return application data only from a record of (inner) type application_data, decrypted (and MACed) by the read cipher, in hsState DONE (or the documented SERVER_HELLO / TLS 1.3 early-data exceptions); decided by CBMC over all values, one decode call from an arbitrary state (inductive step). The same holds at the API: matrixSslReceivedData reports MATRIXSSL_APP_DATA only when the decoder returned SSL_PROCESS_DATA and hands out exactly the region the decoder released; matrixSslEncode / tls13EncodeAppData refuse to seal application data before the handshake is done.',
-    bounds='input buffer 64 bytes (TLS<=1.2), 40 bytes / <=2 records (DTLS), 48 bytes (TLS 1.3); thorough: 96/56/96; activeVersion enumerated over the enabled versions',
+    bounds='input buffer 64 bytes (TLS<=1.2), 40 bytes / <=2 records (DTLS), 48 bytes (TLS 1.3); thorough: 96 bytes TLS, all four DTLS version cases at 40 bytes, 96 bytes TLS 1.3; activeVersion enumerated over the enabled versions',
     outside='that hsState DONE is only reached through an authenticated handshake is C04/C06; buffers larger than the bound; the decoder is a contract stub in the API harness (its contract is what the decoder harnesses assert)',
     explanation='For every RI-state of a session and every input buffer within the bounds, the real record decoders return application data only from a record of (inner) type application_data, decrypted (and MACed) by the read cipher, in hsState DONE (or the documented SERVER_HELLO / TLS 1.3 early-data exceptions); decided by CBMC over all values, one decode call from an arbitrary state (inductive step).',
     assumptions=[])
